@@ -13,7 +13,7 @@ var props = map[string]propCfg{
 			"(random bytes, structured text, 1-3 token mutations of repository patches, template-grammar ill-typed patches) crossed with repository test inputs " +
 			"and generated targets in which the minus side occurs; run through patch.Parse+Apply behind recover and a 10 s watchdog, a sample also through the CLI. " +
 			"The template grammar also plants targets in which an optional part that the pattern fills with a metavariable is absent (plain break / continue / return, a[:], no receiver, no result, no initialiser, embedded field, switch without tag ...; 40 templates) and uses elisions in lists that must not be empty (x := ..., ... = f(), var x = ..., case ...:, go ..., x[...]). " +
-			"Non-trivial = the patch got past sectioning and metavariable parsing (reached pgo/engine, or crashed); distinct by sha256(patch, target). Mode 'many-elisions': valid patches with a dozen or more elisions, among them in parameter lists of nested func literals and a leading '...'. Stress mode 'import-combinations': one path listed 1-9 times by the change under metavariable names against a file that imports it 1-9 times. One CLI case in three gives the target a name of 249 bytes (no room for a temporary sibling: the failure to write has to be reported, not crash). Hostile constants include line directives ('//line f.go:1', '/*line f.go:1:1*/' between the tokens of a declaration) in every frame, the metavariable section among them. The import-combination stress mode may end the list with an import the file lacks or whose name is bound otherwise.",
+			"Non-trivial = the patch got past sectioning and metavariable parsing (reached pgo/engine, or crashed); distinct by sha256(patch, target). Mode 'many-elisions': valid patches with a dozen or more elisions, among them in parameter lists of nested func literals and a leading '...'. Stress mode 'import-combinations': one path listed 1-9 times by the change under metavariable names against a file that imports it 1-9 times. One CLI case in three gives the target a name of 249 bytes (no room for a temporary sibling: the failure to write has to be reported, not crash). Hostile constants include line directives ('//line f.go:1', '/*line f.go:1:1*/' between the tokens of a declaration) in every frame, the metavariable section among them. The import-combination stress mode may end the list with an import the file lacks or whose name is bound otherwise. One CLI case in three names the patch through a -P list whose text is drawn from 23 (blank lines, lines of blanks or tabs, CR LF, '#', NUL, 5000 blanks, no final line feed).",
 		Assumptions: []string{
 			"a hang is 'no return within 10 s' for inputs of at most a few KB (normal run time is below 5 ms)",
 			"native go test -fuzz campaigns cannot be seed-pinned; they are run separately (thorough) and their crashers are replayed here",
@@ -32,7 +32,7 @@ var props = map[string]propCfg{
 		Quick:    tierCfg{Shards: 8, Checks: 2000, Timeout: 4 * time.Minute},
 		Thorough: tierCfg{Shards: 16, Checks: 20000, Timeout: 40 * time.Minute},
 		Rule: "as C01 with generalisation biased to repeated metavariables (same hole for tree-equal subterms, and a forced second occurrence that makes the original code a near-miss) and identifier holes; mutants include 'one occurrence differs / is parenthesised' and 'identifier hole filled with a.b, (a), f(), 5, *p'. " +
-			"Non-trivial = a repeated or identifier metavariable, >= 1 site and >= 1 confirmed near-miss in the same file. One case in 12 is a synthetic nested-choice case (see C01). One case in 15 is of the import part: an identifier metavariable names an import of the change and qualifies its code ('import pk \"example.com/bound/pkg\"', '-pk.Send(m)'); the file imports the path under a drawn name or none and calls Send through 2-6 drawn qualifiers; only calls through the bound name are instances. The file may import the path a second time, under a name that stands first; calls through the other of the two names are not judged.",
+			"Non-trivial = a repeated or identifier metavariable, >= 1 site and >= 1 confirmed near-miss in the same file. One case in 12 is a synthetic nested-choice case (see C01). One case in 15 is of the import part: an identifier metavariable names an import of the change and qualifies its code ('import pk \"example.com/bound/pkg\"', '-pk.Send(m)'); the file imports the path under a drawn name or none and calls Send through 2-6 drawn qualifiers; only calls through the bound name are instances. The file may import the path a second time, under a name that stands first; calls through the other of the two names are not judged. One case in 20 is a 'failed-attempts' case: 0-6 context statements and 0-9 metavariable-named imports in front of '...', a declaration that binds two metavariables, '...', and a return that uses one of them, on a function with 1-3 decoy declarations (each tried and given up).",
 		Assumptions: modelAssumptions,
 		MinNontriv:  50,
 	},
@@ -62,7 +62,7 @@ var props = map[string]propCfg{
 			"explicit files inside excluded directories, explicit excluded directories, explicit non-.go files and symlinks, repeats in the same or another spelling) and a working directory that is the root or a subdirectory. " +
 			"Every file holds one cnt(0) and the patch is -cnt(x)/+cnt(x + 1), so the number of applications is read off the bytes; the oracle is a reference walk over the tree model (must / either / must-not per file), " +
 			"all other entries must be identical in type, mode, size, mtime, inode and sha256, and with -v the patched/skipped lines must be exactly the reference set in ascending absolute-path order. " +
-			"Non-trivial = the tree has at least one .go file below an excluded directory and two arguments overlap or repeat; distinct by sha256(tree, cwd, args, -v). Arguments may pass through a symbolic link to a directory of the tree (a file named that way is processed, once, however else it is named; a directory named that way is left open). Trees may hold hard links of Go files (same base name, other directory) and names with '[', '?', '*'.",
+			"Non-trivial = the tree has at least one .go file below an excluded directory and two arguments overlap or repeat; distinct by sha256(tree, cwd, args, -v). Arguments may pass through a symbolic link to a directory of the tree (a file named that way is processed, once, however else it is named; a directory named that way is left open). Trees may hold hard links of Go files (same base name, other directory) and names with '[', '?', '*'. One tree in six holds a named pipe called like a Go file in a walked directory; a run that does not come back within the time limit is then a finding of this check.",
 		Assumptions: []string{
 			"'a fixed path order' is taken to be ascending byte order of the absolute paths, as the anchors say (sorting in findFiles)",
 			"a named directory whose own path (below the tree root) has an excluded component (explicit sub/vendor, sub/vendor/pkg, '.' inside vendor) is left open by the statement: the files below it that are not behind a further excluded directory may be processed once or not at all",
@@ -94,7 +94,7 @@ var props = map[string]propCfg{
 			"with exactly one header or metavariable-section fault injected at a drawn change/line/column; patch.Parse must fail with a diagnostic 'name:line:col:' for the byte position of the " +
 			"offending token known to the generator (a sample also through the CLI: exit != 0, stderr has path:line:col, directory tree unchanged); plus rejected patches of other kinds " +
 			"(body syntax errors, truncations, token mutations of repository patches) through the CLI, judged only for 'stderr names the patch path, nothing rewritten'. " +
-			"Non-trivial = a judged header/metavariable fault on line > 1 with at least one comment/blank line or a whole change before it; distinct by sha256(name, patch, position, route). Go comments (also '/*line f.go:1:1*/') between the tokens of a metavariable declaration; patch file names with '%', ':' and blanks. Comment lines ending in a carriage return. Every case is preceded, in the same process, by a parse of the same patch three lines further down under another name.",
+			"Non-trivial = a judged header/metavariable fault on line > 1 with at least one comment/blank line or a whole change before it; distinct by sha256(name, patch, position, route). Go comments (also '/*line f.go:1:1*/') between the tokens of a metavariable declaration; patch file names with '%', ':' and blanks. Comment lines ending in a carriage return. Every case is preceded, in the same process, by a parse of the same patch three lines further down under another name. One case in ten is parsed once more behind a UTF-8 byte order mark (the diagnostic is then at 1:1 or at the fault, three bytes to the right on line 1). CLI vias 'p+P' / 'P+p': the rejected patch with -p next to a good one in a -P list.",
 		Assumptions: []string{
 			"the fault-free twin of every generated patch is parsed first; a case whose twin is rejected is not judged (status:base-rejected in the class histogram, expected 0)",
 			"faults whose offending token is the end of the metavariable section (e.g. 'var x,' directly before '@@') are not generated: there is no token in the file to point at",
@@ -120,7 +120,7 @@ var props = map[string]propCfg{
 		Thorough: tierCfg{Shards: 16, Checks: 40000, Timeout: 20 * time.Minute},
 		Rule: "complete table: patch-side import form {absent, unnamed, literally named, metavariable-named, dot, blank} x file-side imports of the guarded path {none, unnamed, same name, other name, dot, blank, spelled like the metavariable, and 8 two-spec combinations in both orders} x file layout {single imports, one group, group among unrelated imports incl. paths that are a prefix/suffix of the guarded path, two blocks, ...: 8 layouts} x package clause {absent, same, different} x guard line kind {context, '-'} x second guarded import {none, satisfied, missing, present in another form} = 17k cells, in every one of which the code pattern does occur in the file; then generated cells with 0-5 extra unrelated imports in drawn forms. Oracle: the table in the property statement decides applies / no effect; 'no effect' is checked as byte-identical Apply result. " +
 			"Package clause cases: absent, same, different, and the near-misses file foo_test / guard foo, guard foo_test / file foo, both foo_test, guard a prefix of the name, guard longer than the name, other capitalisation. Body shapes: expression -> expression (full cross product), and expression -> several statements, statements -> statement, whole function declaration (crossed with two layouts and two second-guard cases). " +
-			"Non-trivial = every cell (each carries at least one guard); distinct by the cell's coordinates. Variants: a metavariable declared with the name of the guarding package clause; an earlier, never-applying change of the same patch file with the same import clause under the other reading of its name (metavariable vs. literal). Body 'uses-mv' (the code refers to the package through the metavariable that names the import; the file uses the name of the last of its imports of the path). 'uses-mv' is also crossed with a satisfied second import guard. Variant 'rename_to' ('-' package clause): the change renames the package, to the file's name or another; the '-' clause remains the guard. File-side spelling 'upper' (the path with one letter in the other case: another path). The random part puts 60-400 unrelated imports in front in one case in ten.",
+			"Non-trivial = every cell (each carries at least one guard); distinct by the cell's coordinates. Variants: a metavariable declared with the name of the guarding package clause; an earlier, never-applying change of the same patch file with the same import clause under the other reading of its name (metavariable vs. literal). Body 'uses-mv' (the code refers to the package through the metavariable that names the import; the file uses the name of the last of its imports of the path). 'uses-mv' is also crossed with a satisfied second import guard. Variant 'rename_to' ('-' package clause): the change renames the package, to the file's name or another; the '-' clause remains the guard. File-side spelling 'upper' (the path with one letter in the other case: another path). The random part puts 60-400 unrelated imports in front in one case in ten. Second guards 'repeat' (the first guard written twice) and 'meta-too' (the guarded path once more under another metavariable): one import of the file may answer for several lines of the patch.",
 		Assumptions: []string{
 			"a file that imports the guarded path twice satisfies a guard if any of the two specs has the stated form",
 			"the random part shares the oracle of the table; the table part alone is a complete enumeration of the stated cross product",
@@ -133,7 +133,7 @@ var props = map[string]propCfg{
 		Rule: "part (a): generated files with 0-8 bystander imports (unnamed, named, blank, dot; one group, single declarations, two blocks, with doc and trailing comments; paths that extend or are extended by the subject path) around a subject import, and patches that replace it, change its path keeping its name, delete it, add another import or merely match it, naming it literally, not at all or by an identifier metavariable, optionally with a second deleted or added import; the file still refers to the subject package not at all, plainly, or only through pkg.A.B / pkg.F().B / pkg.T[0].B / a nested func literal / type positions. Oracle on the (name, path) multiset: bystanders unchanged, nothing unmentioned added, '+' imports present once (under the captured name), '-' imports gone iff nothing refers to their package name any more (or a '+' import supplies the same name). " +
 			"Subject paths are plain, gopkg.in/yaml.v2 -> v3 or example.com/codec/v2 -> v3 (the package name is not the last path element); remaining uses include a parameter, a local variable and a receiver named like the package (not references to the package). " +
 			"part (b): mined patterns with '+import' lines on real hosts (host imports must survive as a multiset, the added import appears once). " +
-			"Non-trivial = (a) the change applies, >= 2 bystanders of >= 2 different forms, and the patch adds or deletes an import; (b) >= 1 site and a '+import' line. Kind 'rename-name-keep-path'; part (c) shape 'import added by an earlier change'. Part (c) shapes added: imports of a change that rewrites nothing (its code occurs only where the '+' code cannot stand) next to a change that does; a blank or dot import on a context line (literal or through a metavariable) stays; a change without import lines whose code pattern is a string or a bare name that also occurs in the import declaration. 'file_case': the file imports the subject path with one letter in the other case (nothing applies). Part (c) shape: the '+' side asks for the very import the file has while the '-' side matches it through a metavariable.",
+			"Non-trivial = (a) the change applies, >= 2 bystanders of >= 2 different forms, and the patch adds or deletes an import; (b) >= 1 site and a '+import' line. Kind 'rename-name-keep-path'; part (c) shape 'import added by an earlier change'. Part (c) shapes added: imports of a change that rewrites nothing (its code occurs only where the '+' code cannot stand) next to a change that does; a blank or dot import on a context line (literal or through a metavariable) stays; a change without import lines whose code pattern is a string or a bare name that also occurs in the import declaration. 'file_case': the file imports the subject path with one letter in the other case (nothing applies). Part (c) shape: the '+' side asks for the very import the file has while the '-' side matches it through a metavariable. 'expr_meta': the metavariable that names the import is declared 'expression' (file import named).",
 		Assumptions: append([]string{
 			"the package name of an unnamed import is the last element of its path, and a metavariable import name is spelled like the package (the documented best practice); bystanders never share a package name with a subject import and no local identifier shadows a package name",
 			"an import matched on a context line that is no longer referred to is not judged (the property is silent)",
@@ -155,7 +155,7 @@ var props = map[string]propCfg{
 		Quick:    tierCfg{Shards: 8, Checks: 350, Timeout: 4 * time.Minute},
 		Thorough: tierCfg{Shards: 16, Checks: 2500, Timeout: 40 * time.Minute},
 		Rule: "sequences of 2-5 changes: (a) a mined change on a real host followed by changes that match only the marker code it introduces (bare identifier, empty call, one/two-argument call, call with elision, selector forms), independent changes mined from the same host, and steps that fail at rewrite time (plus side uses an unbound metavariable); (b) synthetic call-rewriting chains fK(...) -> fK+1(...) over a small file (argument permutation, dropping, duplication, wrapping of arguments, elisions that match zero arguments, changes on names that never occur, a later change on a wrapper introduced earlier). The sequence is cut into 1..n patch files and given as one file, several -p, a -P list, -p plus -P, or stdin. (c) guard sequences: 2-5 changes drawn from a pool that renames the package, replaces / adds / deletes / renames imports, or is guarded by a package clause or an import that an earlier change may have introduced or taken away; (d) focused histories on the same calls fK(<nested argument>, <tail>): steps that bind a metavariable to the nested argument and then fail to match, rewrite something strictly inside it, or reproduce it under a new callee (one patch file in a third of the cases, so that whatever a compiled program remembers is shared). Oracle (differential): the combined CLI run vs the chain of single-change runs, each on the bytes the previous one wrote, compared as canonical trees with parentheses looked through; if a single step fails, the combined run must exit non-zero and leave the file byte-identical. " +
-			"Non-trivial = at least two changes applied and one of them does not apply to the original file on its own, or a failing step after at least one applied change; distinct by sha256(changes, file, channel, split). Families added: 'synthetic-emptied' (an elision that stands for nothing empties a result / argument / field list, a later change is about the form without it; optionally a literal not in gofmt's form), 'synthetic-unprintable' (a step whose result cannot be printed, repaired by a later step), 'synthetic-shadowed-package' (a later change names an imported package, the file has a local of that name inside code an earlier change rebuilds). Family 'synthetic-generated-declarations' (an earlier change writes declarations, a later one binds an identifier metavariable at one of them and at an old use). Families 'synthetic-signatures' (an earlier change writes a result list - none, one unnamed, one named, several, or what an elision leaves - and a later one has the signature on context lines in a drawn spelling), 'synthetic-precedence' (an earlier change puts a sum where the printer must parenthesise it - operand of a product, a selector, a call, a unary operator, an index - or leaves one type argument of a list; the later change is written against the printed text). 'Repeat': in one case in six with several patch files the first file is named again at the end (same path), the chain runs its changes again. A -P list may lack its final line feed. Shapes added to 'synthetic-precedence': a function type as the operand of a conversion.",
+			"Non-trivial = at least two changes applied and one of them does not apply to the original file on its own, or a failing step after at least one applied change; distinct by sha256(changes, file, channel, split). Families added: 'synthetic-emptied' (an elision that stands for nothing empties a result / argument / field list, a later change is about the form without it; optionally a literal not in gofmt's form), 'synthetic-unprintable' (a step whose result cannot be printed, repaired by a later step), 'synthetic-shadowed-package' (a later change names an imported package, the file has a local of that name inside code an earlier change rebuilds). Family 'synthetic-generated-declarations' (an earlier change writes declarations, a later one binds an identifier metavariable at one of them and at an old use). Families 'synthetic-signatures' (an earlier change writes a result list - none, one unnamed, one named, several, or what an elision leaves - and a later one has the signature on context lines in a drawn spelling), 'synthetic-precedence' (an earlier change puts a sum where the printer must parenthesise it - operand of a product, a selector, a call, a unary operator, an index - or leaves one type argument of a list; the later change is written against the printed text). 'Repeat': in one case in six with several patch files the first file is named again at the end (same path), the chain runs its changes again. A -P list may lack its final line feed. Shapes added to 'synthetic-precedence': a function type as the operand of a conversion. Family 'synthetic-unplaceable': a change with a package rename and / or imports whose code occurs only where its '+' code cannot stand, before or after changes that do rewrite the file.",
 		Assumptions: []string{
 			"-p files are given before the -P list (gopatch loads all -p patches first; the only unambiguous 'given order')",
 			"a failing step is one whose own single-change run exits non-zero; steps after it are not run in the chain",
@@ -167,7 +167,7 @@ var props = map[string]propCfg{
 		Thorough: tierCfg{Shards: 16, Checks: 2500, Timeout: 40 * time.Minute},
 		Rule: "compiling patches that put captured code where it may not fit (38 templates: expression holes reproduced in if/for/switch headers, selectors, index and composite positions, type positions, labels, statements <-> expressions; fillers include composite literals, key:value pairs, variadic x..., type expressions, func literals), template-grammar ill-typed patches, and mined patterns on real hosts; every case is run through the library API and through the CLI in 8 mode x flag combinations (in place, --print-only, --diff, each with and without --skip-import-processing, plus --skip-generated and -v). Oracle: every content emitted with exit status 0 (file bytes after an in-place run, --print-only stdout, original + applied --diff, Apply result) must parse with go/parser; when an error is reported instead, stderr must name the file, the file must be byte-identical and no new content may have been printed for it (an unchanged echo under --print-only is not an emission). " +
 			"One case in six uses a 239-byte file name (no temporary sibling can be created next to it); four templates make the file shorter. " +
-			"Non-trivial = some mode emitted content that differs from the input or reported a 'would not parse' error; distinct by sha256(patch, file). One case in four names 1-2 sibling files on the same command line in the writing modes (every file that changed must parse, whatever the exit status); three in ten append a 70 000-byte line and/or use CRLF line ends. Three template cases in eight carry a companion change in the same patch that always applies and cannot break anything (a plain rename before or after, a call rewrite after).",
+			"Non-trivial = some mode emitted content that differs from the input or reported a 'would not parse' error; distinct by sha256(patch, file). One case in four names 1-2 sibling files on the same command line in the writing modes (every file that changed must parse, whatever the exit status); three in ten append a 70 000-byte line and/or use CRLF line ends. Three template cases in eight carry a companion change in the same patch that always applies and cannot break anything (a plain rename before or after, a call rewrite after). One template case in six has a //line directive (gen.y:9000, gen.y:1, a block form, ':5000') in front of the functions.",
 		Assumptions: []string{
 			"patches gopatch rejects at load time are not judged (nothing is emitted)",
 			"the unified diff printed by --diff is applied by a 60-line applier in the harness; a diff that does not apply is counted as unjudged here (C12 judges agreement of the modes)",
@@ -179,7 +179,7 @@ var props = map[string]propCfg{
 		Thorough: tierCfg{Shards: 16, Checks: 15000, Timeout: 40 * time.Minute},
 		Rule: "real hosts (their own comments of every kind: licence headers, //go:build lines, package docs, declaration docs, end-of-line and free-standing comments) additionally decorated by a comment injector (unique tokens c17_<n>: end-of-line comments after statements, free-standing comment lines, doc comments and //go:generate directives above top-level declarations, /* */ comments after ',' and '(' inside expressions, a file header), gofmt-stable, with a mined change that rewrites 1..n places. Oracle: (1) the multiset of comment texts of the output is included in that of the input; (2) for every top-level declaration in which the reference rewrites nothing, the list of its doc, inner and trailing comments is unchanged, in order; (3) header and package comments unchanged; (4) free-standing comments between two untouched declarations unchanged. Judged only when the code of the output equals the reference rewrite. " +
 			"Declarations of input and output correspond in order by exact code equality, so changes that remove a declaration, add one or turn one into another kind (func -> const, var -> func, ...; 9 such changes in the pool) are judged too. " +
-			"Non-trivial = a rewritten declaration whose two neighbours are untouched and commented; distinct by sha256(patch, file). Families added: 'import-section' (tokens on the package line, on import specs and declarations, cgo preamble, free-standing comments, build constraints; a patch that deletes / replaces / adds an import or none; each token must stay, once, attached to what it was attached to) and declaration runs of up to 170 rewritten declarations on either side of an untouched commented function. A quarter of the import-section cases run through the command line with --skip-import-processing; files without imports; a comment on the line below the package clause. Import-section op 'rename-package-then-replace-first-declaration' (files without imports).",
+			"Non-trivial = a rewritten declaration whose two neighbours are untouched and commented; distinct by sha256(patch, file). Families added: 'import-section' (tokens on the package line, on import specs and declarations, cgo preamble, free-standing comments, build constraints; a patch that deletes / replaces / adds an import or none; each token must stay, once, attached to what it was attached to) and declaration runs of up to 170 rewritten declarations on either side of an untouched commented function. A quarter of the import-section cases run through the command line with --skip-import-processing; files without imports; a comment on the line below the package clause. Import-section op 'rename-package-then-replace-first-declaration' (files without imports). The runs family puts a //line directive in front of everything in one case in four.",
 		Assumptions: append([]string{
 			"comments are compared by whitespace-normalised text; empty comments ('//') are ignored; inputs are gofmt-stable so that gofmt's own doc-comment reformatting cannot change them",
 			"declarations correspond by index among non-import declarations (cases where a declaration pattern changes the number of declarations are judged by rule (1) only)",
@@ -196,7 +196,7 @@ var props = map[string]propCfg{
 			"Every listed call is failed once with each of ENOSPC / EIO / EACCES (read side: EACCES / EIO) and, separately, the process is SIGKILLed on entry to it; the run is also repeated under RLIMIT_FSIZE = N for N in {0..16, a stride through each output size, size-1}. Two fixed trees are enumerated completely in every run (split between the shards), the others are drawn. " +
 			"mode kinds (a complete table over a 3-file tree plus drawn compositions): unparseable source (6 fixed shapes, drawn cuts/insertions), a change whose + side uses an unbound metavariable, a change whose result does not parse, a target whose open fails with EACCES (alone and before/after another failing file), a missing path at each argument position, and a missing / unreadable / directory patch at each position of three patches given with -p or inside a -P list, and the -P list itself. " +
 			"Oracle: every pre-existing file holds its original or its fault-free bytes; after a normal exit no new directory entry remains, after a kill a new entry whose name ends in .go holds the original or patched bytes of some file; if the process was not killed, files the fault does not concern hold the fault-free result; whatever could not be processed (faulted file left unpatched, unreadable target, failing file, missing path, bad patch) makes the exit status non-zero and is named on stderr together with its cause (the errno text, a go/parser message, the metavariable); exit 0 implies every file holds its fault-free bytes. " +
-			"Non-trivial = (faults) the injector's log shows that exactly the intended call was tampered with and the file it belongs to is one the fault-free run rewrites, or the size limit is below the size of a rewritten file and demonstrably took effect; (kinds) at least one failure and at least one other file that the fault-free run rewrites. Distinct by sha256(case, file position, system call, ordinal, fault kind). Table additions: the same failure kind in two files at every pair of positions; an unparseable file that looks generated, with --skip-generated; patch lists that are a directory or hold a 70 000-byte line. Mode signal (one generated case in six): 200-600 files, SIGINT / SIGTERM / SIGHUP sent once the file at a drawn position has been rewritten; every file holds original or complete patched bytes and exit status 0 is possible only with every file patched. Non-trivial there = the run was stopped midway (some files patched, some not). Table: 255 / 256 / 257 / 512 unparseable files in one run. Kinds: a good file may be a hard link of another; a -P list may lack its final line feed; the fault-free run is itself checked against the library's result for every good file (exit 0 with a file left out is a finding).",
+			"Non-trivial = (faults) the injector's log shows that exactly the intended call was tampered with and the file it belongs to is one the fault-free run rewrites, or the size limit is below the size of a rewritten file and demonstrably took effect; (kinds) at least one failure and at least one other file that the fault-free run rewrites. Distinct by sha256(case, file position, system call, ordinal, fault kind). Table additions: the same failure kind in two files at every pair of positions; an unparseable file that looks generated, with --skip-generated; patch lists that are a directory or hold a 70 000-byte line. Mode signal (one generated case in six): 200-600 files, SIGINT / SIGTERM / SIGHUP sent once the file at a drawn position has been rewritten; every file holds original or complete patched bytes and exit status 0 is possible only with every file patched. Non-trivial there = the run was stopped midway (some files patched, some not). Table: 255 / 256 / 257 / 512 unparseable files in one run. Kinds: a good file may be a hard link of another; a -P list may lack its final line feed; the fault-free run is itself checked against the library's result for every good file (exit 0 with a file left out is a finding). Unparseable sources include two with //line directives (the report must still name the path that was opened).",
 		Assumptions: []string{
 			"the ptrace injector (harness/props/c16_helpers_test.go, linux/amd64) and prlimit are trusted; every shard first checks that the injector and strace -f -y see the same calls on the two fixed trees (disagreement = inconclusive), and every fault run is only judged if the injector's log shows exactly the intended call tampered with",
 			"fully patched = the bytes a fault-free run of the same command leaves in the file; in mode kinds the fault-free twin is the run over the tree without the failing files (files are processed independently)",
@@ -227,7 +227,7 @@ var props = map[string]propCfg{
 		Rule: "a patch set of 1-3 changes (mined from real code; repository test patches with their inputs; hand-written changes whose rewrite fails / adds an import), two thirds of them with a 1-2 line description carrying a unique token, in 1-2 patch files or on stdin; a tree of 1-6 Go files (made for a change, variants, unrelated, planted instances, injected syntax error, generated header, byte-identical twins; a third of them deformed: CRLF, no final newline, odd indentation, unsorted imports, legacy build tags, odd comments) plus entries that are not gopatch's business (text, json, vendor/, testdata/, hidden directory, .go.orig); arguments = files, directories, '...', duplicates, relative / absolute / mixed spellings of the same file; a drawn subset of -v, --skip-generated, --skip-import-processing. " +
 			"The invocation is run in the default mode, with --print-only, with --diff and with both, each on an identically re-created tree (old mtimes) whose complete snapshot (type, mode, size, mtime, inode, sha256 of every entry incl. patch files and an empty $TMPDIR) is compared before/after. " +
 			"Oracles: (a) any difference after a dry run is a violation; (b) stdout of --print-only must be the concatenation in path order of the bytes the default mode leaves in the files (plus the -v log lines); the original with its --diff hunks applied by a small applier must equal the written bytes, no diff for a file outside the run or for one that failed; patch.File.Apply on the joined patch must return the written bytes (only without --skip-import-processing; generated files only without --skip-generated) and fail exactly when the command line fails for that file; exit status equal in all modes; (c) default-mode stdout empty (only log lines with -v), no description token on any stdout, every stderr line before the error text is 'reported-path:description' of a change that applied to that file (decided by folding the changes one by one through the library, confirmed by a -v solo run before a report). " +
-			"Non-trivial = the run covers >= 1 file the patches change and >= 1 they leave alone; distinct by sha256(case). File names may be too long for a temporary sibling (the default mode then fails to write; only the dry runs are compared); deformations 'long-line' and 'many-lines'.",
+			"Non-trivial = the run covers >= 1 file the patches change and >= 1 they leave alone; distinct by sha256(case). File names may be too long for a temporary sibling (the default mode then fails to write; only the dry runs are compared); deformations 'long-line' and 'many-lines'. Deformation 'line-directives' and special 'under-line-directives' (hosts with //line directives, rewritten calls spanning several lines).",
 		Assumptions: []string{
 			"the path a file is reported under is the argument's spelling: relative to the working directory for relative arguments, absolute for absolute ones; when both reach one file the last argument decides (observed; not part of the statement, used only to attribute diffs and descriptions to files)",
 			"for a file that cannot be processed (syntax error, failing rewrite) no bytes are compared; --print-only may echo it unchanged or print nothing",
